@@ -167,6 +167,11 @@ class Injector:
             return SystemExit(3)
         if self.wk == "local":
             return OSError(5, "injected I/O error")
+        if kind == "terr":
+            # a RETRYABLE failure (the retry layer may re-send the request): e.g. the connection dropped after the server applied it
+            from botocore.exceptions import ConnectionClosedError
+
+            return ConnectionClosedError(endpoint_url="http://fake-s3")
         return client_error("AccessDenied", "Op", 403)
 
     def handle(self, n, phase, label, target, info):
@@ -216,7 +221,7 @@ def run_scenario_kind(sc, kind, shard, nshard, tier, double=False):
         for n, ph, label, target in events:
             if ph != "before":
                 continue
-            if kind == "err_after" and not (label.startswith("s3:put") or label.startswith("s3:delete")):
+            if kind in ("err_after", "terr_after") and not (label.startswith("s3:put") or label.startswith("s3:delete")):
                 continue
             plan.append((n, label, target))
         idx = 0
@@ -264,6 +269,8 @@ def judge(w, sc, pre, fk, outcome, exc, st, inj):
     from datashard import AmbiguousCommitError
 
     interrupt = fk in ("ki", "se")
+    if fk == "terr" and outcome == "raise" and not isinstance(exc, Exception):
+        interrupt = True
     tag = f"{'interrupt' if interrupt else 'error'}"
     cls, v = classify(w, sc, pre)
     if isinstance(cls, tuple):
@@ -315,6 +322,7 @@ def plan(tier, seed):
         kinds = ["err_before", "ki_before", "ki_after", "se_before"]
         if sc["world"] != "local":
             kinds.append("err_after")
+            kinds.append("terr_after")
         if tier == "quick":
             # quick: every step for errors; interrupts at every step for the primary style, every 2nd step otherwise
             for kind in kinds:
